@@ -388,7 +388,7 @@ func (e *AST) MarshalJSON() ([]byte, error) {
 	return json.Marshal(map[string]any{"op": e.Op, "l": e.L, "r": e.R})
 }
 
-func (f *Frag) jsonValue() any {
+func (f Frag) jsonValue() any {
 	switch f.F {
 	case "child":
 		k := f.K
@@ -418,4 +418,9 @@ func (f *Frag) jsonValue() any {
 		return map[string]any{"f": f.F, "e": f.E}
 	}
 	return map[string]any{"f": f.F}
+}
+
+// MarshalJSON writes a fragment with exactly the fields the TLA+ side reads (an empty key stays present).
+func (f Frag) MarshalJSON() ([]byte, error) {
+	return json.Marshal(f.jsonValue())
 }
